@@ -36,10 +36,22 @@ pub fn order_key(kind: PoolKind, first_line: &str) -> String {
 
 pub fn gen_trace(r: &mut Rng, nconn: usize, base_id: u64) -> (Vec<Conn>, Vec<TFrame>) {
     let kinds = [Kind::TcpHandshake, Kind::Tls, Kind::Tls, Kind::Http1, Kind::Http1, Kind::Http2, Kind::Garbage];
+    // a third of the traces are "hub" traces: a few busy hosts (a NAT gateway, a proxy, a popular
+    // server) take part in many connections, so that one sending host has results towards many
+    // destinations -- the per-host order of the TCP pool is then a real constraint
+    let hub = r.chance(1, 3);
+    let sub = (base_id % 250) as u8;
     let conns: Vec<Conn> = (0..nconn)
         .map(|i| {
             let k = *r.pick(&kinds);
-            scenario::gen_conn(r, base_id + i as u64, k, scenario::T0)
+            let ep = if hub && r.chance(3, 4) {
+                let c = [10, 200, sub, 1 + r.below(3) as u8];
+                let sv = [172, 30, sub, 1 + r.below(4) as u8];
+                Some(crate::pkt::Endpoints::v4(c, 2000 + (i as u16) * 13 + r.below(13) as u16, sv, *r.pick(&[80u16, 443, 8080])))
+            } else {
+                None
+            };
+            scenario::gen_conn_ep(r, base_id + i as u64, k, scenario::T0, ep)
         })
         .collect();
     let mix = *r.pick(&[Mix::Riffle, Mix::RoundRobin, Mix::Bursts]);
@@ -84,8 +96,13 @@ pub struct ParOutcome {
 }
 
 pub fn parallel(kind: PoolKind, cfg: &PoolCfg, trace: &[TFrame], lockstep: bool, perturb_seed: u64, perturb_rate: u64) -> Result<ParOutcome, String> {
+    parallel_with(kind, cfg, trace, lockstep, perturb_seed, perturb_rate, false)
+}
+
+/// `via_analyzer`: the pool is the one the analyzer's `with_config` + `init_pool` builds.
+pub fn parallel_with(kind: PoolKind, cfg: &PoolCfg, trace: &[TFrame], lockstep: bool, perturb_seed: u64, perturb_rate: u64, via_analyzer: bool) -> Result<ParOutcome, String> {
     pool::reset_log(perturb_seed, perturb_rate);
-    let h = Handle::new(kind, cfg, Filters::none())?;
+    let h = if via_analyzer { Handle::new_via_analyzer(kind, cfg, Filters::none())? } else { Handle::new(kind, cfg, Filters::none())? };
     let mut all_queued = true;
     let mut queued = 0u64;
     let mut drained = true;
@@ -225,6 +242,29 @@ pub fn run(ctx: &mut Ctx) {
                 }
             }
         }
+        // pools built by the analyzers (with_config + init_pool), in lock-step with a queue much
+        // smaller than the number of open connections and a connection capacity far above it:
+        // nothing overflows, so every connection's results must still be there
+        if t % 2 == 1 || !ctx.quick() {
+            for kind in [PoolKind::Tcp, PoolKind::Http, PoolKind::Tls] {
+                let short: Vec<TFrame> = trace.iter().take(600).cloned().collect();
+                let started = std::time::Instant::now();
+                let Ok(seq_t) = sequential(kind, &short, with_db, |f| f.at_ms) else { continue };
+                let cfg = PoolCfg { workers: 1 + r.usize(3), queue: 2 + r.usize(5), batch: *r.pick(&[1usize, 8]), timeout_ms: 1, max_conn: 4096, with_db };
+                match parallel_with(kind, &cfg, &short, true, r.next_u64(), 0, true) {
+                    Ok(par) => {
+                        if started.elapsed().as_secs() >= 15 {
+                            ctx.inconclusive("lock-step run exceeded 15 s of wall time");
+                        } else {
+                            compare(ctx, kind, &cfg, "analyzer-built-pool/lock-step/small-queue", &seq_t, &par, t, &short);
+                        }
+                    }
+                    Err(e) => {
+                        ctx.judge(false, &[], "worker pool could not be created", || json!({"error": e, "via": "with_config + init_pool"}));
+                    }
+                }
+            }
+        }
         // analyze_pcap entry in parallel mode (TCP: includes the shutdown path)
         if t % 4 == 0 && !ctx.miri() {
             pcap_mode(ctx, &mut r, t, &trace);
@@ -313,7 +353,7 @@ pub fn spec() -> PropSpec {
         shards: super::shards_8_16,
         rule: "seeded traces of 10..200 complete connections (handshakes with timestamps, multi-segment ClientHellos, HTTP/1.x and HTTP/2 exchanges in both directions, garbage) are analysed sequentially and by the TCP, HTTP and TLS worker pools under varied worker counts (1..16), batch sizes {1,2,32}, timeouts {1,10} ms and seeded yield/sleep/spin perturbation at the hook points; after logical drain the result multisets and the per-connection (TCP: per-sender) orders are compared; a lock-step mode compares uptime estimates through the TCP pool; the parallel analyze_pcap entry of the TCP analyzer is compared with its sequential one; a bucket is a distinct (pool, mode, workers, batch, timeout) configuration or a distinct result-arrival order observed",
         assumptions: &[
-            "queue size exceeds the trace length; a run in which any dispatch is not queued, or which does not drain within 30 s, is inconclusive",
+            "queue size exceeds the trace length (free-running), or frames are dispatched one at a time and awaited at the WorkerProcessed point (lock-step, also with queues of 2..6 on pools built by the analyzers' with_config + init_pool, connection capacity 4096); a run in which any dispatch is not queued, or which does not drain within 30 s, is inconclusive",
             "free-running runs freeze the virtual clock (uptime estimation then yields nothing in both modes); lock-step runs advance it per frame",
             "Ethernet and raw-IP framing only (the TLS pool drops loopback-framed frames at dispatch by design of its hash)",
             "only schedules produced by real threads with perturbation are explored; the thorough tier adds ThreadSanitizer and Miri stages on reduced traces",
